@@ -144,6 +144,15 @@ func (tc *typechecker) checkIdentifier(ident *ast.Identifier, used bool) *typeIn
 		tc.compilation.iteaToUsingCheck[ident.Name] = uc
 	}
 
+	// Every use of a constant has its own type info: the value type that is
+	// set for a use, and then read by the emitter, must not be seen by the
+	// other uses of the constant, nor, for the predeclared constants, by the
+	// other compilations.
+	if ti.IsConstant() {
+		use := *ti
+		ti = &use
+	}
+
 	tc.compilation.typeInfos[ident] = ti
 	return ti
 }
